@@ -243,6 +243,46 @@ def kw_json(fn, kw):
             **{f"{k}.shape": list(v.shape) for k, v in kw.items() if isinstance(v, torch.Tensor)}}
 
 
+def tdesc(t: torch.Tensor):
+    return {"shape": list(t.shape), "dtype": str(t.dtype).replace("torch.", ""), "data": t.tolist()}
+
+
+def is_tdesc(v):
+    return isinstance(v, dict) and {"shape", "dtype", "data"} <= set(v)
+
+
+def tundesc(d) -> torch.Tensor:
+    return torch.tensor(d["data"], dtype=getattr(torch, d["dtype"])).reshape(tuple(d["shape"]))
+
+
+def case_desc(fn, kw):
+    """replayable description of a functional case: every tensor with its dtype and shape (label inputs are int64, score
+    inputs float32), every parameter as the python value it is (None / "none" / "None" / int k / float threshold keep their type)"""
+    return {"fn": fn, "kwargs": {k: (tdesc(v) if isinstance(v, torch.Tensor) else v) for k, v in kw.items()}}
+
+
+def case_from_desc(c):
+    return c["fn"], {k: (tundesc(v) if is_tdesc(v) else v) for k, v in c["kwargs"].items()}
+
+
+def config_class(kw):
+    return kw.get('average', kw.get('criteria', kw.get('normalize', '')))
+
+
+def textbook_verdict(fn, kw, real):
+    """direct counting on one functional case vs its real outcome: (agrees: True | False | None = not covered, textbook values).
+    Used by the sweep, by search() and by replay()."""
+    exp = oracle(fn, kw)
+    return oracle_agrees(real, exp), exp
+
+
+def textbook_violation(fn, kw, real, exp, extra=None):
+    rj = real[1] if real[0] == "err" else [t.tolist() for t in real[1]]
+    tj = [str(x) for x in exp] if exp else None
+    return (f"C04|{fn}|{config_class(kw)}|differs-from-textbook", f"{fn} returns {rj} where direct counting gives {tj}",
+            {"kind": "functional", "case": case_desc(fn, kw), "real": rj, "textbook": tj, **(extra or {})})
+
+
 def real_call(fn, kw):
     kw = dict(kw)
     a = [kw.pop("input"), kw.pop("target")]
@@ -272,13 +312,11 @@ def check_cases(rep: Report, cases, stream: str):
         if msg is None:
             continue
         nbad += 1
-        exp = oracle(fn, kw)
-        agrees = oracle_agrees(real, exp)
-        replay = {"case": kw_json(fn, kw), "real": real[1] if real[0] == "err" else [t.tolist() for t in real[1]],
+        agrees, exp = textbook_verdict(fn, kw, real)
+        replay = {"kind": "functional", "case": case_desc(fn, kw), "real": real[1] if real[0] == "err" else [t.tolist() for t in real[1]],
                   "model": o, "textbook": [str(x) for x in exp] if exp else None, "mismatch": msg}
         if agrees is False:
-            rep.violation(f"C04|{fn}|{kw.get('average', kw.get('criteria', kw.get('normalize', '')))}|differs-from-textbook",
-                          f"{fn} returns {replay['real']} where direct counting gives {replay['textbook']}", replay)
+            rep.violation(*textbook_violation(fn, kw, real, exp, {"model": o, "mismatch": msg}))
         else:
             rep.broke(f"correspondence:{stream}:{fn}", f"model and implementation disagree ({msg}); textbook oracle "
                       + ("agrees with the implementation" if agrees else "does not cover this case"), replay)
@@ -302,28 +340,39 @@ def search(rep: Report):
         n += 1
         if n > 60000:
             break
-        exp = oracle(fn, kw)
-        if exp is None:
+        if oracle(fn, kw) is None:
             continue
         real = real_call(fn, kw)
-        if oracle_agrees(real, exp) is False:
-            rep.violation(f"C04|{fn}|{kw.get('average', kw.get('criteria', kw.get('normalize', '')))}|differs-from-textbook",
-                          f"{fn} differs from direct counting", {"case": kw_json(fn, kw),
-                          "real": real[1] if real[0] == "err" else [t.tolist() for t in real[1]], "textbook": [str(x) for x in exp]})
+        agrees, exp = textbook_verdict(fn, kw, real)
+        if agrees is False:
+            rep.violation(*textbook_violation(fn, kw, real, exp))
             return
 
 
+def _nothing(reason):
+    raise ValueError(f"nothing to replay: {reason}")
+
+
 def replay(payload) -> bool:
-    c = payload["replay"]["case"]
-    fn = c["fn"]
-    kw = {}
-    for k, v in c.items():
-        if k == "fn" or k.endswith(".shape"):
-            continue
-        if k in ("input", "target"):
-            dt = torch.int64 if (k == "target" or (c[k + ".shape"] and len(c[k + ".shape"]) == 1 and fn.startswith("multiclass"))) else torch.float32
-            kw[k] = torch.tensor(v, dtype=dt).reshape(c[k + ".shape"])
-        else:
-            kw[k] = v
-    exp = oracle(fn, kw)
-    return oracle_agrees(real_call(fn, kw), exp) is not False
+    """True iff the property holds on the recorded functional call: it is rebuilt from its description (tensors with their
+    recorded dtype and shape, parameters as recorded), run on the real code and judged by `textbook_verdict`."""
+    if not isinstance(payload, dict) or payload.get("kind", "failing-input") != "failing-input":
+        _nothing(f"payload kind {payload.get('kind') if isinstance(payload, dict) else None!r} carries no concrete input")
+    r = payload.get("replay")
+    if not isinstance(r, dict) or not r:
+        _nothing("the payload carries no replay dict")
+    c = r.get("case")
+    if r.get("kind") != "functional" or not isinstance(c, dict):
+        _nothing(f"replay kind {r.get('kind')!r}: not a functional case" + (" (case recorded without tensor dtypes, old format)" if isinstance(c, dict) else ""))
+    if "fn" not in c or not isinstance(c.get("kwargs"), dict) or not all(is_tdesc(c["kwargs"].get(k)) for k in ("input", "target")):
+        _nothing("functional payload without a case description {fn, kwargs: tensors with dtype and shape}")
+    fn, kw = case_from_desc(c)
+    if not hasattr(F, fn):
+        _nothing(f"unknown functional {fn!r}")
+    real = real_call(fn, kw)
+    agrees, exp = textbook_verdict(fn, kw, real)
+    if agrees is None:
+        _nothing(f"direct counting does not cover this {fn} call")
+    if agrees is False:
+        print(f"replay: {textbook_violation(fn, kw, real, exp)[1]}"[:600])
+    return agrees is True
